@@ -129,6 +129,8 @@ Agg(f, t) == IF f = <<>> THEN [empty |-> TRUE]
 Obs(f, l, t, o) == [ids |-> f, labels |-> l, agg |-> Agg(f, t), t0 |-> t, order |-> o]
 
 -----------------------------------------------------------------------------
+Active == Len(hist) < MaxOps
+
 Init == /\ started = FALSE /\ ordered = FALSE /\ order = Order0
         /\ frames = <<>> /\ label = [v \in AllFrames |-> "-"] /\ t0 = T0Init
         /\ res = [op |-> "Init", st |-> "ok"] /\ hist = <<>>
@@ -143,7 +145,7 @@ Room == Len(frames) < MaxLen
 
 (* Cadence(frame_list=lst) / OrderedCadence(frame_list=lst, order=Order0) *)
 New(ord, lst) ==
-    /\ ~started
+    /\ Active /\ ~started
     /\ LET x == ExtendFrom(<<>>, label, lst, ord, Order0)
            r == [op |-> "New", st |-> x.st]
            a == [name |-> "New", ordered |-> ord, list |-> lst] IN
@@ -156,27 +158,27 @@ New(ord, lst) ==
                                 obs |-> Obs(IF x.st = "ok" THEN x.f ELSE <<>>, x.l, t0, Order0)])
 
 Insert(i, v) ==
-    /\ started /\ Room
+    /\ Active /\ started /\ Room
     /\ LET e == Chk(v, frames)  p == Clamp(i, Len(frames))
            a == [name |-> "Insert", i |-> i, v |-> v] IN
        IF e # "ok" THEN Finish(a, frames, label, [op |-> "Insert", st |-> e])
        ELSE Finish(a, InsertAt(frames, p, v), Lab(label, v, p, ordered, order), [op |-> "Insert", st |-> "ok"])
 
 AppendOp(v) ==
-    /\ started /\ Room
+    /\ Active /\ started /\ Room
     /\ LET e == Chk(v, frames)  p == Len(frames)
            a == [name |-> "Append", v |-> v] IN
        IF e # "ok" THEN Finish(a, frames, label, [op |-> "Append", st |-> e])
        ELSE Finish(a, Append(frames, v), Lab(label, v, p, ordered, order), [op |-> "Append", st |-> "ok"])
 
 Extend(lst, iadd) ==
-    /\ started /\ Len(frames) + Len(lst) <= MaxLen
+    /\ Active /\ started /\ Len(frames) + Len(lst) <= MaxLen
     /\ LET x == ExtendFrom(frames, label, lst, ordered, order)
            a == [name |-> IF iadd THEN "IAdd" ELSE "Extend", list |-> lst] IN
        Finish(a, x.f, x.l, [op |-> "Extend", st |-> x.st])
 
 SetItem(i, v) ==
-    /\ started
+    /\ Active /\ started
     /\ LET e == Chk(v, frames)  n == Len(frames)
            a == [name |-> "SetItem", i |-> i, v |-> v] IN
        IF e # "ok" THEN Finish(a, frames, label, [op |-> "SetItem", st |-> e])
@@ -185,18 +187,18 @@ SetItem(i, v) ==
                    [op |-> "SetItem", st |-> "ok"])
 
 DelItem(i) ==
-    /\ started
+    /\ Active /\ started
     /\ LET n == Len(frames)  a == [name |-> "DelItem", i |-> i] IN
        IF ~InRange(i, n) THEN Finish(a, frames, label, [op |-> "DelItem", st |-> "IndexError"])
        ELSE Finish(a, RemoveAt(frames, Norm(i, n)), label, [op |-> "DelItem", st |-> "ok"])
 
 DelSlice(lo, hi, step) ==
-    /\ started
+    /\ Active /\ started
     /\ LET a == [name |-> "DelSlice", lo |-> lo, hi |-> hi, step |-> step] IN
        Finish(a, DeletePos(frames, SlicePos(lo, hi, step, Len(frames))), label, [op |-> "DelSlice", st |-> "ok"])
 
 Pop(i) ==       \* i = NoneV: pop() with the default index -1
-    /\ started
+    /\ Active /\ started
     /\ LET n == Len(frames)  ii == IF i = NoneV THEN -1 ELSE i
            a == [name |-> "Pop", i |-> i] IN
        IF ~InRange(ii, n) THEN Finish(a, frames, label, [op |-> "Pop", st |-> "IndexError"])
@@ -204,35 +206,35 @@ Pop(i) ==       \* i = NoneV: pop() with the default index -1
                    [op |-> "Pop", st |-> "ok", val |-> frames[Norm(ii, n) + 1]])
 
 RemoveOp(v) ==
-    /\ started
+    /\ Active /\ started
     /\ LET k == IndexOf(frames, v, 1)  a == [name |-> "Remove", v |-> v] IN
        IF k < 0 THEN Finish(a, frames, label, [op |-> "Remove", st |-> "ValueError"])
        ELSE Finish(a, RemoveAt(frames, k), label, [op |-> "Remove", st |-> "ok"])
 
 Reverse ==
-    /\ started
+    /\ Active /\ started
     /\ Finish([name |-> "Reverse"], [j \in 1..Len(frames) |-> frames[Len(frames) + 1 - j]], label,
               [op |-> "Reverse", st |-> "ok"])
 
 Clear ==
-    /\ started
+    /\ Active /\ started
     /\ Finish([name |-> "Clear"], <<>>, label, [op |-> "Clear", st |-> "ok"])
 
 GetItem(i) ==
-    /\ started
+    /\ Active /\ started
     /\ LET n == Len(frames)  a == [name |-> "GetItem", i |-> i] IN
        IF ~InRange(i, n) THEN Finish(a, frames, label, [op |-> "GetItem", st |-> "IndexError"])
        ELSE Finish(a, frames, label, [op |-> "GetItem", st |-> "ok", val |-> frames[Norm(i, n) + 1]])
 
 GetSlice(lo, hi, step) ==       \* returns a new cadence of the same class
-    /\ started
+    /\ Active /\ started
     /\ LET a == [name |-> "GetSlice", lo |-> lo, hi |-> hi, step |-> step] IN
        Finish(a, frames, label,
               [op |-> "GetSlice", st |-> "ok", ids |-> SelectPos(frames, SlicePos(lo, hi, step, Len(frames))),
                ordered |-> ordered])
 
 GetIdx(lst) ==                  \* integer index array (list / tuple / ndarray)
-    /\ started /\ frames # <<>>
+    /\ Active /\ started /\ frames # <<>>
     /\ LET n == Len(frames)  a == [name |-> "GetIdx", list |-> lst] IN
        IF \E j \in 1..Len(lst) : ~InRange(lst[j], n)
        THEN Finish(a, frames, label, [op |-> "GetIdx", st |-> "IndexError"])
@@ -241,18 +243,18 @@ GetIdx(lst) ==                  \* integer index array (list / tuple / ndarray)
                     ordered |-> ordered])
 
 GetMask(mask) ==                \* boolean mask of the cadence's length
-    /\ started /\ frames # <<>> /\ Len(mask) = Len(frames)
+    /\ Active /\ started /\ frames # <<>> /\ Len(mask) = Len(frames)
     /\ LET a == [name |-> "GetMask", mask |-> mask]
            pos == SelectSeq([j \in 1..Len(frames) |-> j - 1], LAMBDA p : mask[p + 1]) IN
        Finish(a, frames, label, [op |-> "GetMask", st |-> "ok", ids |-> SelectPos(frames, pos), ordered |-> ordered])
 
 ByLabel(L) ==
-    /\ started /\ ordered
+    /\ Active /\ started /\ ordered
     /\ Finish([name |-> "ByLabel", label |-> L], frames, label,
               [op |-> "ByLabel", st |-> "ok", ids |-> SelectSeq(frames, LAMBDA v : label[v] = L), ordered |-> FALSE])
 
 SetOrder(o) ==
-    /\ started /\ ordered
+    /\ Active /\ started /\ ordered
     /\ LET n == Len(frames)
            last(v) == CHOOSE k \in 1..n : frames[k] = v /\ \A m \in k + 1..n : frames[m] # v
            l == [v \in AllFrames |-> IF \E k \in 1..n : frames[k] = v THEN o[last(v)] ELSE label[v]]
@@ -266,7 +268,7 @@ RECURSIVE Overwrite(_, _, _, _)
 Overwrite(t, f, k, s) == IF k > Len(f) THEN t
                          ELSE Overwrite([t EXCEPT ![f[k]] = Tstop(t, f[k - 1]) + s], f, k + 1, s)
 OverwriteTimes(s) ==
-    /\ started
+    /\ Active /\ started
     /\ LET t == Overwrite(t0, frames, 2, s)
            r == [op |-> "OverwriteTimes", st |-> "ok"] IN
        /\ t0' = t /\ res' = r
@@ -287,27 +289,25 @@ Done == /\ EmitOn /\ Len(hist) = MaxOps
         /\ UNCHANGED <<started, ordered, order, frames, label, t0, res>>
 
 Next ==
-  \/ Done
-  \/ /\ Len(hist) < MaxOps
-     /\
-        \/ \E ord \in BOOLEAN, lst \in StartLists : New(ord, lst)
-        \/ \E x \in Pick(IdxRange \X Items) : Insert(x[1], x[2])
-        \/ \E v \in Items : AppendOp(v)
-        \/ \E lst \in ExtLists, ia \in BOOLEAN : Extend(lst, ia)
-        \/ \E x \in Pick(IdxRange \X Items) : SetItem(x[1], x[2])
-        \/ \E i \in IdxRange : DelItem(i)
-        \/ \E x \in Pick(SliceArgs) : DelSlice(x[1], x[2], x[3])
-        \/ \E i \in IdxRange \cup {NoneV} : Pop(i)
-        \/ \E v \in Items : RemoveOp(v)
-        \/ Reverse
-        \/ Clear
-        \/ \E i \in IdxRange : GetItem(i)
-        \/ \E x \in Pick(SliceArgs) : GetSlice(x[1], x[2], x[3])
-        \/ \E lst \in Pick(IdxLists) : GetIdx(lst)
-        \/ \E m \in Pick(Masks) : GetMask(m)
-        \/ \E L \in Labels : ByLabel(L)
-        \/ \E o \in Orders : SetOrder(o)
-        \/ \E s \in {0, 3 * TK} : OverwriteTimes(s)
+    \/ Done
+    \/ \E ord \in BOOLEAN, lst \in StartLists : New(ord, lst)
+    \/ \E x \in Pick(IdxRange \X Items) : Insert(x[1], x[2])
+    \/ \E v \in Items : AppendOp(v)
+    \/ \E lst \in ExtLists, ia \in BOOLEAN : Extend(lst, ia)
+    \/ \E x \in Pick(IdxRange \X Items) : SetItem(x[1], x[2])
+    \/ \E i \in IdxRange : DelItem(i)
+    \/ \E x \in Pick(SliceArgs) : DelSlice(x[1], x[2], x[3])
+    \/ \E i \in IdxRange \cup {NoneV} : Pop(i)
+    \/ \E v \in Items : RemoveOp(v)
+    \/ Reverse
+    \/ Clear
+    \/ \E i \in IdxRange : GetItem(i)
+    \/ \E x \in Pick(SliceArgs) : GetSlice(x[1], x[2], x[3])
+    \/ \E lst \in Pick(IdxLists) : GetIdx(lst)
+    \/ \E m \in Pick(Masks) : GetMask(m)
+    \/ \E L \in Labels : ByLabel(L)
+    \/ \E o \in Orders : SetOrder(o)
+    \/ \E s \in {0, 3 * TK} : OverwriteTimes(s)
 
 Spec == Init /\ [][Next]_vars
 
